@@ -46,6 +46,8 @@ pub struct Case {
     pub input: Vec<u8>,
     pub nexts: u8,
     pub bumps: Vec<N>,
+    /// lexer created with new_partial (bump must behave the same)
+    pub partial: bool,
 }
 
 const STR_ATOMS: &[&str] = &["a", "é", "日本", "12", " ", "+", "😀", "\"x\"", "ß", "\n"];
@@ -62,8 +64,8 @@ pub fn edge_char() -> BoxedStrategy<char> {
 }
 
 pub fn case_strategy() -> BoxedStrategy<Case> {
-    (0u8..4, any::<bool>(), vec((any::<u8>(), proptest::option::weighted(0.3, edge_char())), 0..8), 0u8..5, vec(n_strategy(), 1..5))
-        .prop_map(|(source_kind, bytes_mode, atoms, nexts, bumps)| {
+    (0u8..4, any::<bool>(), vec((any::<u8>(), proptest::option::weighted(0.3, edge_char())), 0..8), 0u8..5, vec(n_strategy(), 1..5), prop::bool::weighted(0.3))
+        .prop_map(|(source_kind, bytes_mode, atoms, nexts, bumps, partial)| {
             let mut input = Vec::new();
             for (a, c) in atoms {
                 if bytes_mode {
@@ -74,7 +76,7 @@ pub fn case_strategy() -> BoxedStrategy<Case> {
                     input.extend_from_slice(STR_ATOMS[(a as usize * STR_ATOMS.len()) >> 8].as_bytes());
                 }
             }
-            Case { source_kind, bytes_mode, input, nexts, bumps }
+            Case { source_kind, bytes_mode, input, nexts, bumps, partial }
         })
         .boxed()
 }
@@ -137,13 +139,19 @@ pub fn interpret(case: &Case, run: Option<&mut Run>) -> Result<(), String> {
     let owned_box: Box<str> = text.into();
     let owned_rc: std::rc::Rc<str> = text.into();
     let owned_vec: Vec<u8> = src.to_vec();
-    let mut lex: Box<dyn L + '_> = match (case.source_kind, is_str) {
-        (0, true) => Box::new(Lexer::<StrA>::new(text)),
-        (0, false) => Box::new(Lexer::<BytesA>::new(src)),
-        (1, true) => Box::new(Lexer::<ManualString>::new(&owned_string)),
-        (2, true) => Box::new(Lexer::<ManualBoxStr>::new(&owned_box)),
-        (3, true) => Box::new(Lexer::<ManualRcStr>::new(&owned_rc)),
-        (_, _) => Box::new(Lexer::<ManualVec>::new(&owned_vec)),
+    let mut lex: Box<dyn L + '_> = match (case.source_kind, is_str, case.partial) {
+        (0, true, false) => Box::new(Lexer::<StrA>::new(text)),
+        (0, false, false) => Box::new(Lexer::<BytesA>::new(src)),
+        (1, true, false) => Box::new(Lexer::<ManualString>::new(&owned_string)),
+        (2, true, false) => Box::new(Lexer::<ManualBoxStr>::new(&owned_box)),
+        (3, true, false) => Box::new(Lexer::<ManualRcStr>::new(&owned_rc)),
+        (_, _, false) => Box::new(Lexer::<ManualVec>::new(&owned_vec)),
+        (0, true, true) => Box::new(Lexer::<StrA>::new_partial(text)),
+        (0, false, true) => Box::new(Lexer::<BytesA>::new_partial(src)),
+        (1, true, true) => Box::new(Lexer::<ManualString>::new_partial(&owned_string)),
+        (2, true, true) => Box::new(Lexer::<ManualBoxStr>::new_partial(&owned_box)),
+        (3, true, true) => Box::new(Lexer::<ManualRcStr>::new_partial(&owned_rc)),
+        (_, _, true) => Box::new(Lexer::<ManualVec>::new_partial(&owned_vec)),
     };
     for _ in 0..case.nexts {
         lex.next_();
@@ -213,7 +221,10 @@ pub fn interpret(case: &Case, run: Option<&mut Run>) -> Result<(), String> {
             }
         }
         run.count(&format!("source_kind_{}", case.source_kind), 1);
-        run.sample(|| json!({"source_kind": case.source_kind, "mode": if is_str { "str" } else { "bytes" }, "input": show(src), "nexts": case.nexts, "bumps": format!("{:?}", case.bumps)}));
+        if case.partial {
+            run.count("partial_lexers", 1);
+        }
+        run.sample(|| json!({"source_kind": case.source_kind, "partial": case.partial, "mode": if is_str { "str" } else { "bytes" }, "input": show(src), "nexts": case.nexts, "bumps": format!("{:?}", case.bumps)}));
     }
     Ok(())
 }
@@ -246,7 +257,7 @@ pub fn main(args: &Args, cfg: &str) -> i32 {
         "C15",
         &args.tier,
         args.seed,
-        "proptest cases: source (str / [u8] with a derived lexer; String, Box<str>, Rc<str>, Vec<u8> through hand-written Logos impls over the Deref blanket Source impl; multi-byte chars) x k next() calls x 1-4 bump amounts from {remaining+-2, each char boundary +-1, usize::MAX-k, usize::MAX-end+j (wraps onto valid positions), small}; bump under catch_unwind; oracle: returns normally iff end.checked_add(n) is Some(e) with e <= len on a char boundary, else panics; afterwards start <= end <= len on boundaries (checked from span() before slice()/remainder() are called and compared), lexer usable after a caught panic; evaluation = one bump; non-trivial = distinct cases with n > remaining, n landing mid-char, or n wrapping",
+        "proptest cases: source (ordinary and partial lexers; str / [u8] with a derived lexer; String, Box<str>, Rc<str>, Vec<u8> through hand-written Logos impls over the Deref blanket Source impl; multi-byte chars) x k next() calls x 1-4 bump amounts from {remaining+-2, each char boundary +-1, usize::MAX-k, usize::MAX-end+j (wraps onto valid positions), small}; bump under catch_unwind; oracle: returns normally iff end.checked_add(n) is Some(e) with e <= len on a char boundary, else panics; afterwards start <= end <= len on boundaries (checked from span() before slice()/remainder() are called and compared), lexer usable after a caught panic; evaluation = one bump; non-trivial = distinct cases with n > remaining, n landing mid-char, or n wrapping",
     );
     run.assumptions = vec![format!("build configuration {cfg}")];
     std::panic::set_hook(Box::new(|_| {}));
@@ -258,6 +269,7 @@ pub fn main(args: &Args, cfg: &str) -> i32 {
             input: unhex(v["input_hex"].as_str().unwrap()),
             nexts: v["nexts"].as_u64().unwrap() as u8,
             bumps: v["bumps"].as_array().unwrap().iter().map(n_from).collect(),
+            partial: v["partial"].as_bool().unwrap_or(false),
         };
         return match interpret(&case, None) {
             Ok(()) => {
@@ -281,7 +293,7 @@ pub fn main(args: &Args, cfg: &str) -> i32 {
             report_violation(
                 "C15",
                 &args.replay_dir,
-                &json!({"property": "C15", "tier": "A", "config": cfg, "source_kind": case.source_kind, "bytes_mode": case.bytes_mode, "input_hex": hex(&case.input), "input": show(&case.input), "nexts": case.nexts, "bumps": case.bumps.iter().map(n_json).collect::<Vec<_>>(), "findings": [{"property": "C15", "what": msg}]}),
+                &json!({"property": "C15", "tier": "A", "config": cfg, "source_kind": case.source_kind, "bytes_mode": case.bytes_mode, "input_hex": hex(&case.input), "input": show(&case.input), "nexts": case.nexts, "partial": case.partial, "bumps": case.bumps.iter().map(n_json).collect::<Vec<_>>(), "findings": [{"property": "C15", "what": msg}]}),
             );
             1
         }
